@@ -478,6 +478,7 @@ def run(tier, seed, replay=None):
     spec_fail, corr_fail = [], []
     n_constraints = 0
     nontrivial = 0
+    distinct_seen = set()
     kinds_seen = collections.Counter()
     forms_seen = collections.Counter()
     rows_unconfirmed = 0
@@ -515,7 +516,11 @@ def run(tier, seed, replay=None):
             kinds_seen[l["tuple"][2][0] if l["tuple"][2][0] != "kind" else l["tuple"][2][1]] += 1
             forms_seen[("^" if l["tuple"][0] else "") + (l["ctok"] if not l["ctok"].startswith("{") else "{k}")] += 1
         if n and len({l["ctok"] for l in lines}) > 1:
-            nontrivial += 1
+            key = hash((case["nt"], json.dumps(case["switches"], sort_keys=True), tuple(case["thr"]),
+                        json.dumps(case.get("ns"), sort_keys=True)))
+            if key not in distinct_seen:
+                distinct_seen.add(key)
+                nontrivial += 1
         if r["shacl_error"]:
             shacl_errors[r["shacl_error"].split(":")[0] + (" (out of domain: non-http(s) predicate or class value)"
                                                            if r["ood_reason"] else " (in domain)")] += 1
@@ -672,7 +677,8 @@ def run(tier, seed, replay=None):
         "distinct_nontrivial": nontrivial,
         "rule": "one evaluation = one graph x configuration run through one real Shaper (ShExC then SHACL), both "
                 "documents parsed, oracle + model on every constraint line; plus the synthetic-statement grid.  "
-                "Non-trivial = the run produced constraint lines with at least two different cardinality forms.  "
+                "Distinct = different (graph text, switches, threshold, namespaces dict); non-trivial = the run produced "
+                "constraint lines with at least two different cardinality forms.  "
                 "Graphs: 1-4 classes, 1-6 instances (20 % blank nodes, 20 % multi-class), 1-4 properties, cardinalities "
                 "0-3, nine value kinds, 6 % with an out-of-domain feature; switch combinations round-robin over all "
                 "2^6; thresholds in {0, 1, k/n}; three namespaces dictionaries",
